@@ -253,7 +253,10 @@ func c04Random(r *rt.Rand) (*gen.Node, string) {
 		return t, "boolconst"
 	case 5: // constant calls
 		calls := []*gen.Node{gen.Call("upper", gen.Str("a")), gen.Call("int", gen.Str("3")), gen.Call("str", gen.Int(2)), gen.Call("float", gen.Str("1.5")), gen.Call("is_int", gen.Str("x")), gen.Call("strlen", gen.Str("ab")),
-			gen.Call("lower", gen.Bin("+", gen.Str("A"), gen.Str("b"))), gen.Call("is_float", gen.Str("1.5")), gen.Call("int", gen.Bin("+", gen.Int(1), gen.Int(2))), gen.Call("float", gen.Int(3)), gen.Call("join", gen.Str(","), gen.Int(1), gen.Str("a")), gen.Call("strlen", gen.Call("upper", gen.Str("abc")))}
+			gen.Call("lower", gen.Bin("+", gen.Str("A"), gen.Str("b"))), gen.Call("is_float", gen.Str("1.5")), gen.Call("int", gen.Bin("+", gen.Int(1), gen.Int(2))), gen.Call("float", gen.Int(3)), gen.Call("join", gen.Str(","), gen.Int(1), gen.Str("a")), gen.Call("strlen", gen.Call("upper", gen.Str("abc"))),
+			// type tests over constants of every kind (an integer is not a float, whatever its text looks like)
+			gen.Call("is_float", gen.Bin("+", gen.Int(1), gen.Int(2))), gen.Call("is_float", gen.Call("strlen", gen.Str("ab"))), gen.Call("is_int", gen.Bin("*", gen.Int(2), gen.Int(3))), gen.Call("is_int", gen.Float("2.5")),
+			gen.Call("is_float", gen.Bin("+", gen.Float("0.5"), gen.Float("0.5"))), gen.Call("is_int", gen.Str("12")), gen.Call("is_float", gen.Str("7")), gen.Call("is_int", gen.Call("float", gen.Int(3)))}
 		t := calls[r.Intn(len(calls))]
 		switch t.T {
 		case gen.TN:
